@@ -298,7 +298,6 @@ func (r *Router) Resource(basePath string, controller any, middles ...HandlerFun
 	basePath += resName
 
 	r.Group(basePath, func() {
-		for _, RESTFulActions := range verifActionBatches(RESTFulActions) { // verif seam: registration order
 		for name, methods := range RESTFulActions {
 			m := cv.MethodByName(name)
 			if !m.IsValid() {
@@ -327,7 +326,6 @@ func (r *Router) Resource(basePath string, controller any, middles ...HandlerFun
 				route.Use(handlers...)
 			}
 		}
-		} // verif seam
 	}, middles...)
 }
 
